@@ -6,7 +6,8 @@ C18 — property statements.
     `push_truncation_exact`, `push_truncation_prefix` (StreamDecoder)
 (b) `trailerCheck_reject_iff`, `truncated_footer_rejected_unless_trailer` (+ Parquet / IPC
     instances), `truncated_footer_rejected_of_no_inner_magic`, `short_prefix_rejected`
-(c) `sink_prefix`, `sink_ok_complete`, `sink_benign_ok`, `writer_source_shape`
+(c) `sink_prefix`, `sink_ok_complete`, `sink_benign_ok`, `writer_source_shape`,
+    `sticky_failure`, `session_spec`, `parquet_writer_state_shape`
 (d) `records_truncation`
 -/
 namespace ArrowModel.C18
@@ -325,6 +326,71 @@ theorem writer_source_shape :
       SHAPE_WRITE_CONTINUATION_lost || SHAPE_WRITE_ENCODED_lost || SHAPE_WRITE_SLICE_lost ||
       SHAPE_WRITE_RECORD_BATCH_lost || SHAPE_PARQUET_FOOTER_lost || SHAPE_PARQUET_HEADER_lost ||
       SHAPE_TRACKED_WRITE_ALL_lost) = false := by decide
+
+/-- **Sticky failure.**  In any session (any schedule of sink faults, the caller free to keep
+calling after errors), once an API call has reported failure every later call — in particular
+every later `finish`/`close`/`into_inner` — reports failure. -/
+theorem sticky_failure (st : WState) (before after : List (List Call))
+    (h : false ∈ (apiSeq st before).2) :
+    ∀ b ∈ (apiSeq (apiSeq st before).1 after).2, b = false :=
+  apiSeq_poisoned _ after (apiSeq_false_poisons st before h)
+
+/-- **A later success means nothing was lost.**  If the LAST call of a session (the `finish`)
+reports ok, then every call before it reported ok and the sink holds exactly the bytes of all
+calls; in any case the sink holds a prefix of them. -/
+theorem session_spec (ops : List (List Call)) (st : WState) :
+    ∃ t, (apiSeq st ops).1.acc = st.acc ++ t ∧ t <+: sessionOutput ops ∧
+      ((∀ b ∈ (apiSeq st ops).2, b = true) → t = sessionOutput ops) := by
+  induction ops generalizing st with
+  | nil => exact ⟨[], by simp [apiSeq], by simp [sessionOutput, output], fun _ => by simp [sessionOutput, output]⟩
+  | cons c cs ih =>
+    obtain ⟨t, h1, h2, h3⟩ := apiCall_spec st c
+    obtain ⟨u, g1, g2, g3⟩ := ih (apiCall st c).1
+    simp only [apiSeq, sessionOutput, List.flatten_cons, output_append]
+    by_cases hok : (apiCall st c).2 = true
+    · have ht := h3 hok
+      refine ⟨t ++ u, ?_, ?_, ?_⟩
+      · rw [g1, h1]; simp
+      · rw [ht]; exact (List.prefix_append_right_inj _).mpr g2
+      · intro hall
+        rw [ht, g3 (fun b hb => hall b (List.mem_cons_of_mem _ hb))]; rfl
+    · -- the call failed: the writer is poisoned, nothing more reaches the sink
+      have hf : (apiCall st c).2 = false := by simpa using hok
+      have hp := apiCall_false st c hf
+      have hu : u = [] := by
+        have : ∀ (ops : List (List Call)) (s : WState), s.poisoned = true → (apiSeq s ops).1.acc = s.acc := by
+          intro ops
+          induction ops with
+          | nil => intro s _; rfl
+          | cons d ds ihd =>
+            intro s hs
+            simp only [apiSeq]
+            have := apiCall_poisoned s d hs
+            rw [ihd _ this.1]
+            simp [apiCall, hs]
+        have h := this cs _ hp
+        rw [g1] at h
+        simpa using h
+      refine ⟨t, by rw [g1, h1, hu]; simp, List.IsPrefix.trans h2 (List.prefix_append _ _), ?_⟩
+      intro hall
+      have := hall (apiCall st c).2 (List.mem_cons_self ..)
+      rw [hf] at this; cases this
+
+
+/-- **Source shape of the state tracking in `SerializedFileWriter`** (what makes it an instance of
+`WState`): in `next_row_group`'s `on_close` the bloom filters are written (`write_bloom_filters(…)?`)
+BEFORE `row_groups.push(metadata)`, so a failure there leaves the row group uncounted;
+`assert_previous_writer_closed` compares `row_group_index` with `row_groups.len()` (and refuses a
+finished writer); `finish` starts with that assertion and `write_metadata` sets `finished` first.
+Reordering the push, or dropping one of the checks, loses the item. -/
+theorem parquet_writer_state_shape :
+    (SHAPE_ON_CLOSE_ORDER_lost || SHAPE_ASSERT_PREV_CLOSED_lost || SHAPE_FINISH_ASSERTS_lost ||
+      SHAPE_NEXT_RG_ASSERTS_lost || SHAPE_WRITE_METADATA_FINISHED_lost) = false := by decide
+
+/-- non-trivial session: the second call fails half-way, the caller calls `finish` twice more -/
+example : (apiSeq ⟨[.ok, .short 1, .fail], [], false⟩
+    [[.write [1, 2]], [.write [3, 4, 5], .flush], [.write [9]], [.write [9]]]).2 = [true, false, false, false] := by
+  decide
 
 /-- non-trivial schedule: a short write, an interrupt, then a failure in the second call -/
 example : runWriter [.short 2, .interrupted, .ok, .fail] [] [.write [1, 2, 3], .flush, .write [4, 5]] =
